@@ -281,17 +281,29 @@ func C14_Marked() {
 		stmt += string(form[i])
 	}
 	fn := "func(x) {\n" + dead + lead + stmt + tail + "\n}"
+	// twin: a function literal with the same text (so, where the body mentions
+	// no literal, the same instructions) defined a few lines earlier and never
+	// called: locations must be those of the function that runs
+	twin := ""
+	if (place == 1 || place == 3) && vf.Choice("twin", 2) == 1 {
+		for i := 0; i < len(fn); i++ {
+			if fn[i] != '@' {
+				twin += string(fn[i])
+			}
+		}
+		twin = "twin := " + twin + "\n"
+	}
 	var mainSrc, modSrc, file string
 	switch place {
 	case 0: // main, top level
 		mainSrc, file = lead+stmt+"\nout := 1", "(main)"
 	case 1: // function in main
-		mainSrc, file = lead+"f := "+fn+"\nout := f(\"s\")", "(main)"
+		mainSrc, file = lead+twin+"f := "+fn+"\nout := f(\"s\")", "(main)"
 	case 2: // module body: fails while the import expression is evaluated
 		modSrc, file = lead+stmt+"\nexport 1", "mod1"
 		mainSrc = "a := import(\"mod1\")"
 	default: // function exported by a module
-		modSrc, file = lead+"export "+fn, "mod1"
+		modSrc, file = lead+twin+"export "+fn, "mod1"
 		mainSrc = "import(\"mod1\")(\"s\")"
 	}
 	if twoMods {
